@@ -155,17 +155,39 @@ class ViewpointReorienter:
     def _get_aligned(self, triangles: List[Triangle], vector: NPVectorType) -> List[Triangle]:
         return sorted(triangles, key=lambda t: np.dot(t.normal, vector))[-2:]
 
-    def reorient(self, operation: Operation):
-        points = operation.point_array
-        center = operation.center
+    def _sort_by_triangles(self, points: NPPointListType, normals: Dict[OrientType, NPVectorType]) -> List[NPPointType]:
+        """Finds sides from triangles of the convex hull; works with points in any order"""
+        triangles = self._make_triangles(points)
+        remaining_triangles = set(triangles)
 
-        # (only serves as a check for convexity)
-        self._make_triangles(points)
+        quads: Dict[OrientType, Quadrangle] = {}
 
-        normals = self._get_normals(center)
+        for key, normal in normals.items():
+            # Take two most nicely aligned triangles
+            aligned = self._get_aligned(list(remaining_triangles), normal)
 
-        # The operation knows which corners make its sides: take their mean normals
-        # (a side can be warped) instead of pairing up triangles of the hull
+            quads[key] = Quadrangle(aligned)
+
+            remaining_triangles -= set(aligned)
+
+        # find each point by intersecting specific quads
+        return [
+            quads["bottom"].get_common_point(quads["front"], quads["left"]),
+            quads["bottom"].get_common_point(quads["front"], quads["right"]),
+            quads["bottom"].get_common_point(quads["back"], quads["right"]),
+            quads["bottom"].get_common_point(quads["back"], quads["left"]),
+            quads["top"].get_common_point(quads["front"], quads["left"]),
+            quads["top"].get_common_point(quads["front"], quads["right"]),
+            quads["top"].get_common_point(quads["back"], quads["right"]),
+            quads["top"].get_common_point(quads["back"], quads["left"]),
+        ]
+
+    def _sort_by_sides(
+        self, points: NPPointListType, center: NPPointType, normals: Dict[OrientType, NPVectorType]
+    ) -> List[NPPointType]:
+        """Chooses among the sides the points already form as corners of a hexahedron (in any of its numberings):
+        sides can be warped (their two triangles have different normals) or tapered
+        ('back' is not the side that looks away from the observer most) - the block knows better"""
         side_normals: Dict[OrientType, NPVectorType] = {}
         for orient, corners in constants.FACE_MAP.items():
             side_points = np.take(points, corners, axis=0)
@@ -223,6 +245,27 @@ class ViewpointReorienter:
         if np.dot(np.cross(edge_1, edge_2), edge_3) < 0:
             sides["left"], sides["right"] = sides["right"], sides["left"]
             sorted_points = get_sorted_points()
+
+        return sorted_points
+
+    def reorient(self, operation: Operation):
+        points = operation.point_array
+        normals = self._get_normals(operation.center)
+
+        # Are the points numbered as corners of a hexahedron (however it is turned or mirrored)?
+        # Then all 12 edges of that numbering are edges of the convex hull. (A Connector, for instance,
+        # hands over two faces whose corners do not correspond.)
+        hull_edges = set()
+        for simplex in ConvexHull(points).simplices:
+            for i in range(3):
+                hull_edges.add(frozenset((simplex[i], simplex[(i + 1) % 3])))
+
+        if all(frozenset(pair) in hull_edges for pair in constants.EDGE_PAIRS):
+            # (only serves as a check for convexity)
+            self._make_triangles(points)
+            sorted_points = self._sort_by_sides(points, operation.center, normals)
+        else:
+            sorted_points = self._sort_by_triangles(points, normals)
 
         # (a safeguard: never overwrite the operation with a corner named twice)
         for i, point_1 in enumerate(sorted_points):
